@@ -103,3 +103,6 @@ package ecs
 //@   requires stats != nil
 //@   ensures  fields: stats.Size == int(t.len) && stats.Capacity == int(t.cap) && stats.Memory == int(t.cap)*memPerEntity && stats.MemoryUsed == int(t.len)*memPerEntity
 //@   modifies stats.Size, stats.Capacity, stats.Memory, stats.MemoryUsed
+
+//@ spec func tableMatchesSpec(t *table, relations []relationID) bool :=
+//@   len(relations) == 0 || len(t.relationIDs) == 0 || tableTargetsMatch(t, relations)
